@@ -20,6 +20,11 @@ theorem gateway_surface : gatewaySurface.map sig = gatewayExpected := by decide
 
 theorem gateway_storage_no_alias : noAlias gatewayStorage = true ∧ keysNodup gatewayStorage = true := by decide
 
+/-- the storage mappers of the contract are exactly the fields the model's state has (a mapper the model does not know
+    is state the theorems do not cover; the harness emulates its absence on contracts deployed by earlier code: `wipe`) -/
+theorem gateway_storage_keys : gatewayStorage.map (·.key) = ["domain_separator", "epoch", "epoch_by_signer_hash", "last_rotation_timestamp", "messages", "minimum_rotation_delay", "operator", "previous_signers_retention", "signer_hash_by_epoch"] := by decide
+
+
 end Axelar.Surface
 
 namespace Axelar.Surface
